@@ -59,14 +59,21 @@ Definition chain (fs : list Z) : Z * bool :=
 Definition lprod (fs : list Z) : Z := fold_right Z.mul 1 fs.
 
 (* ------------------------------------------------------------------------------------------------ *)
-Inductive outcome := Ok | OkWrapped | Err | PanicOverflow | PanicOob.
+Inductive outcome := Ok | OkWrapped | Err | PanicOverflow | PanicOob | AbortAlloc.
 (* OkWrapped: Ok returned although a header multiplication overflowed (only the wrapped value matched):
-   the "wrapped acceptance" of the release build.  The implementation cannot tell it from Ok. *)
+   the "wrapped acceptance" of the release build.  The implementation cannot tell it from Ok.
+   AbortAlloc: `vec![[0u8; 32]; seed_len]` with a count taken from the stream asks for more memory than the
+   process can get: handle_alloc_error aborts the process (not even a panic). *)
+
+(* Largest single allocation the environment grants.  Every real system has such a bound (here: 62 GiB of RAM,
+   no swap; the unchecked count reaches 2^32 - 1 seeds = 128 GiB).  The harness installs an allocator that
+   refuses requests above this value while read_from runs, so that the outcome does not depend on the machine. *)
+Definition alloc_limit : Z := 131072.
 
 Definition outcome_code (o : outcome) : Z :=
   match o with Ok | OkWrapped => 0 | Err => 1 | _ => 2 end.
 Definition is_ok (o : outcome) : bool := match o with Ok | OkWrapped => true | _ => false end.
-Definition is_panic (o : outcome) : bool := match o with PanicOverflow | PanicOob => true | _ => false end.
+Definition is_panic (o : outcome) : bool := match o with PanicOverflow | PanicOob | AbortAlloc => true | _ => false end.
 (* outcome of `a?; b` when a succeeded *)
 Definition seq_oc (a b : outcome) : outcome :=
   match a with Ok => b | OkWrapped => (match b with Ok => OkWrapped | _ => b end) | _ => a end.
@@ -282,32 +289,38 @@ Fixpoint read_seeds (partial : bool) (cnt : nat) (s : bytes) : bool * list bytes
            else (false, b :: repeat zero_seed c, [])
   end.
 
-(* one field, AS IT IS: assigned to `self` as soon as it has been read *)
-Definition read_fval (partial : bool) (f : fval) (s : bytes) : bool * fval * bytes :=
+(* one field, AS IT IS: assigned to `self` as soon as it has been read.  Outcome: Ok | Err | AbortAlloc *)
+Definition okb (b : bool) : outcome := if b then Ok else Err.
+
+Definition read_fval (partial : bool) (f : fval) (s : bytes) : outcome * fval * bytes :=
   match f with
-  | VU32 _ => match rd 4 s with Some (v, s') => (true, VU32 v, s') | None => (false, f, []) end
-  | VU64 _ => match rd 8 s with Some (v, s') => (true, VU64 v, s') | None => (false, f, []) end
-  | VSeed b => let '(ok, b', s') := rx partial 32 b s in (ok, VSeed b', s')
+  | VU32 _ => match rd 4 s with Some (v, s') => (Ok, VU32 v, s') | None => (Err, f, []) end
+  | VU64 _ => match rd 8 s with Some (v, s') => (Ok, VU64 v, s') | None => (Err, f, []) end
+  | VSeed b => let '(ok, b', s') := rx partial 32 b s in (okb ok, VSeed b', s')
   | VSeeds _ => match rd 4 s with
-                | None => (false, f, [])
-                | Some (cnt, s') => let '(ok, l, s'') := read_seeds partial (Z.to_nat cnt) s' in (ok, VSeeds l, s'')
+                | None => (Err, f, [])
+                | Some (cnt, s') =>
+                  if alloc_limit <? 32 * cnt then (AbortAlloc, f, [])          (* vec![[0u8; 32]; cnt] *)
+                  else let '(ok, l, s'') := read_seeds partial (Z.to_nat cnt) s' in (okb ok, VSeeds l, s'')
                 end
   | VDist _ _ => match rd 8 s with
-                 | None => (false, f, [])
+                 | None => (Err, f, [])
                  | Some (w, s') => match dist_decode w with
-                                   | Some (t, p) => (true, VDist t p, s')
-                                   | None => (false, f, [])
+                                   | Some (t, p) => (Ok, VDist t p, s')
+                                   | None => (Err, f, [])
                                    end
                  end
   end.
 
-Fixpoint read_fields (partial : bool) (fs : list field) (s : bytes) : bool * list field * bytes :=
+Fixpoint read_fields (partial : bool) (fs : list field) (s : bytes) : outcome * list field * bytes :=
   match fs with
-  | [] => (true, [], s)
-  | f :: t => let '(ok, v', s') := read_fval partial (f_val f) s in
+  | [] => (Ok, [], s)
+  | f :: t => let '(oc, v', s') := read_fval partial (f_val f) s in
               let f' := {| f_role := f_role f; f_val := v' |} in
-              if ok then let '(ok2, t', s'') := read_fields partial t s' in (ok2, f' :: t', s'')
-              else (false, f' :: t, [])
+              match oc with
+              | Ok => let '(oc2, t', s'') := read_fields partial t s' in (oc2, f' :: t', s'')
+              | _ => (oc, f' :: t, [])
+              end
   end.
 
 (* proposed repair: fields are parsed into temporaries (`self` untouched), seeds are collected one by
@@ -369,10 +382,12 @@ Definition flat_reader := bool -> bool -> flat -> bytes -> outcome * flat * byte
 (* read_from of glwe.rs, lwe.rs, gglwe.rs, ggsw.rs, glwe_switching_key.rs, ... and compressed/*.rs, as they are:
    `self.base2k = Base2K(reader.read_u32()?); ...; self.data.read_from(reader)` *)
 Definition read_wobj_with (rf : flat_reader) (dbg partial : bool) (w : wobj) (s : bytes) : outcome * wobj * bytes :=
-  let '(ok, fs', s') := read_fields partial (w_fields w) s in
-  if ok then let '(oc, b', s'') := rf dbg partial (w_body w) s' in
-             (oc, {| w_fields := fs'; w_body := b' |}, s'')
-  else (Err, {| w_fields := fs'; w_body := w_body w |}, []).
+  let '(o1, fs', s') := read_fields partial (w_fields w) s in
+  match o1 with
+  | Ok => let '(oc, b', s'') := rf dbg partial (w_body w) s' in
+          (oc, {| w_fields := fs'; w_body := b' |}, s'')
+  | _ => (o1, {| w_fields := fs'; w_body := w_body w |}, [])
+  end.
 
 (* proposed repair: temporaries, validation, inner read, commit only after the inner read succeeded *)
 Definition read_wobj_fixed_with (rf : flat_reader) (dbg partial : bool) (w : wobj) (s : bytes) : outcome * wobj * bytes :=
@@ -409,9 +424,9 @@ Fixpoint read_keys (rw : wobj -> bytes -> outcome * wobj * bytes) (ks : list wob
 
 (* as it is: `self.dist = Distribution::read_from(reader)?; let len = read_u64()?; if self.keys.len() != len {Err}; for key ... key.read_from(reader)?` *)
 Definition read_kseq_with (rw : wobj_reader) (dbg partial : bool) (k : kseq) (s : bytes) : outcome * kseq * bytes :=
-  let '(ok, pre', s1) := read_fields partial (k_pre k) s in
+  let '(o1, pre', s1) := read_fields partial (k_pre k) s in
   let k1 := {| k_pre := pre'; k_keys := k_keys k |} in
-  if negb ok then (Err, k1, [])
+  if negb (is_ok o1) then (o1, k1, [])
   else match rd 8 s1 with
        | None => (Err, k1, [])
        | Some (len, s2) =>
